@@ -5,6 +5,7 @@ from __future__ import annotations
 import json
 import os
 import subprocess
+import tempfile
 import sys
 import time
 from collections import Counter
@@ -54,7 +55,10 @@ def run_children(check_id, tier, seed, units, timeout):
         while pending and len(running) < nproc:
             fam, start, count = pending.pop(0)
             cmd = [PY, "-W", "ignore", "-m", "vf.child", check_id, tier, str(seed), fam, str(start), str(count)]
-            p = subprocess.Popen(cmd, stdout=subprocess.PIPE, stderr=subprocess.PIPE, env=env, cwd=VERIF, text=True)
+            # the children report through unnamed temporary files: a pipe nobody drains blocks the child once it holds 64 KiB
+            fo, fe = tempfile.TemporaryFile("w+"), tempfile.TemporaryFile("w+")
+            p = subprocess.Popen(cmd, stdout=fo, stderr=fe, env=env, cwd=VERIF, text=True)
+            p.vf_files = (fo, fe)
             running.append((p, (fam, start, count), time.time()))
         time.sleep(0.02)
         for item in list(running):
@@ -63,11 +67,16 @@ def run_children(check_id, tier, seed, units, timeout):
                 if time.time() > t_end:
                     p.kill()
                     p.wait()
+                    for f in p.vf_files:
+                        f.close()
                     running.remove(item)
                     fails.append((unit, "watchdog"))
                 continue
             running.remove(item)
-            out, err = p.communicate()
+            fo, fe = p.vf_files
+            fo.seek(0), fe.seek(0)
+            out, err = fo.read(), fe.read()
+            fo.close(), fe.close()
             if p.returncode != 0:
                 fails.append((unit, f"exit {p.returncode}: {err[-2000:]}"))
                 continue
@@ -169,7 +178,7 @@ def main(argv=None):
                 break
     inconclusive = []
     if fails:
-        inconclusive.append(f"{len(fails)} child(ren) failed: {fails[0][1][:300]}")
+        inconclusive.append(f"{len(fails)} child(ren) failed: {fails[0][0]} {fails[0][1][:200]} ... {fails[0][1][-700:]}")
     for name, floor in spec.floors(tier).items():
         if a.scale >= 1 and sit.get(name, 0) < floor:
             inconclusive.append(f"coverage floor missed: {name}={sit.get(name, 0)} < {floor}")
